@@ -30,7 +30,9 @@ for d in sorted(glob.glob('/verif/seeded/*/*/')):
             res.append(f"**{chk}**: " + ", ".join(f"`{v[:70]}`" for v in viol[:3]) + (" ..." if len(viol) > 3 else ""))
         elif rc and rc.group(1) == '2':
             res.append(f"{chk}: exit 2 (harness error)")
-        else:
+        elif 'exit=superseded' in t:
+            res.append(f"{chk}: superseded by a repair (see result file)")
+        elif chk == pid:
             res.append(f"{chk}: not caught")
     rows.append((pid, k, summary, "; ".join(res) if res else "not run"))
 print("| change | what it does | what the checks reported (quick tier) |")
